@@ -393,6 +393,29 @@ class _ExprInline(ast.NodeTransformer):
                 inh = self.prog.method(self.caller.cls, f.attr)
                 if inh is not None and inh.qname in getattr(self, "inherited", {}):
                     fi = inh
+        if fi is None and isinstance(f, ast.Attribute) and isinstance(f.value, ast.Name) and f.value.id not in ("self", "cls") and getattr(self, "prog", None) is not None:
+            # row.to_event(): a method name that exactly one class of the packages defines, and that is new: the receiver
+            # can only be an instance of that class
+            um = getattr(self, "unique_methods", {}).get(f.attr)
+            if um is not None and um.qname in getattr(self, "inherited", {}) and um is not self.caller and not um.is_static and um.params and um.params[0] == "self":
+                expr = self.inherited[um.qname]
+                if not getattr(expr, "_nested_only", False) or self._depth > 0:
+                    params = um.params[1:]
+                    if not n.keywords and len(n.args) == len(params) and not any(isinstance(a, ast.Starred) for a in n.args):
+                        mapping = dict(zip(params, n.args))
+                        mapping["self"] = f.value
+                        uses = {}
+                        for x in ast.walk(expr):
+                            if isinstance(x, ast.Name) and x.id in mapping:
+                                uses[x.id] = uses.get(x.id, 0) + 1
+                        if all(isinstance(a_, (ast.Name, ast.Constant)) or uses.get(p_, 0) <= 1 for p_, a_ in mapping.items()):
+                            new = _Subst(mapping, {}).visit(ast.parse(ast.unparse(expr), mode="eval").body)
+                            ast.copy_location(new, n)
+                            for x in ast.walk(new):
+                                if not hasattr(x, "lineno"):
+                                    ast.copy_location(x, n)
+                            self.done.append((self.caller.qname, um.qname))
+                            return new
         if fi is None or (fi.qname not in self.cands and fi.qname not in getattr(self, "inherited", {})) or fi is self.caller:
             return n
         expr = self.cands.get(fi.qname) or self.inherited[fi.qname]
@@ -450,6 +473,20 @@ def _drop_identity(stmts):
                 h.body = _drop_identity(h.body) or [ast.copy_location(ast.Pass(), h)]
         if isinstance(st, ast.Assign) and len(st.targets) == 1 and isinstance(st.targets[0], ast.Name) and isinstance(st.value, ast.Name) and st.value.id == st.targets[0].id:
             continue
+        # x = A if C else x   ==   if C: x = A      (and the mirrored form): what an expanded `return A if C else x` helper leaves
+        if isinstance(st, ast.Assign) and len(st.targets) == 1 and isinstance(st.targets[0], ast.Name) and isinstance(st.value, ast.IfExp):
+            t, v = st.targets[0].id, st.value
+            keep_else = isinstance(v.orelse, ast.Name) and v.orelse.id == t
+            keep_body = isinstance(v.body, ast.Name) and v.body.id == t
+            if keep_else != keep_body:
+                test = v.test if keep_else else ast.UnaryOp(op=ast.Not(), operand=v.test)
+                asg = ast.Assign(targets=[ast.Name(id=t, ctx=ast.Store())], value=v.body if keep_else else v.orelse)
+                new = ast.If(test=test, body=[asg], orelse=[])
+                for x in (new, asg, test):
+                    ast.copy_location(x, st)
+                ast.fix_missing_locations(new)
+                out.append(new)
+                continue
         out.append(st)
     return out
 
@@ -472,6 +509,19 @@ def inline_new_helpers(prog):
             e = _expression_helper(fi)
             if e is not None and not any(isinstance(x, ast.Name) and x.id in fi.mod.funcs for x in ast.walk(e)):
                 inherited[fi.qname] = e
+    # new method names that exactly one class defines (and nothing else in the packages is called that)
+    by_name = {}
+    for fi in prog.funcs.values():
+        by_name.setdefault(fi.name, []).append(fi)
+    attr_names = set()
+    for mi_ in prog.modules.values():
+        for n_ in ast.walk(mi_.tree):
+            if isinstance(n_, ast.Assign):
+                for t_ in n_.targets:
+                    if isinstance(t_, ast.Attribute):
+                        attr_names.add(t_.attr)
+    BUILTIN_METHODS = set(dir(dict)) | set(dir(list)) | set(dir(str)) | set(dir(set)) | set(dir(tuple)) | {"json", "save", "execute", "get", "where", "select", "delete", "insert", "update", "count", "first", "total_seconds", "timestamp", "isoformat", "astimezone", "replace", "commit", "cursor", "fetchone", "fetchall", "close", "debug", "info", "warning", "error"}
+    unique_methods = {nm: v[0] for nm, v in by_name.items() if len(v) == 1 and v[0].cls is not None and v[0].qname not in known and nm not in attr_names and nm not in BUILTIN_METHODS and not nm.startswith("__")}
     # (0) pure expression helpers are substituted wherever they are called (helpers that use helpers: a few rounds)
     for mi in list(prog.modules.values()):
         for _round in range(3):
@@ -497,6 +547,7 @@ def inline_new_helpers(prog):
                 tr = _ExprInline(mi, caller, {q: e for q, e in ecands.items() if q != caller.qname}, done, props)
                 tr.factories = factories
                 tr.prog, tr.inherited = prog, {q: e for q, e in inherited.items() if q != caller.qname}
+                tr.unique_methods = unique_methods
                 caller.node.body = [tr.visit(st) for st in caller.node.body]
                 ast.fix_missing_locations(caller.node)
             if len(done) == before:
@@ -594,9 +645,10 @@ def inline_new_helpers(prog):
             """f(h(x)) / y = g(h(x)) / return g(h(x)): a call to an unknown multi-statement helper that sits inside a simple
             statement is bound to a temporary first, so that it can be expanded as an assignment"""
             is_if = isinstance(st, ast.If)
-            if not is_if and (not isinstance(st, (ast.Expr, ast.Assign, ast.Return)) or st.value is None):
+            is_for = isinstance(st, ast.For)  # the iterable of a `for` is evaluated once, before the first round
+            if not is_if and not is_for and (not isinstance(st, (ast.Expr, ast.Assign, ast.Return)) or st.value is None):
                 return [st]
-            top = None if is_if else st.value  # (the test of an `if` is evaluated once, before the branches: same treatment)
+            top = None if (is_if or is_for) else st.value  # (the test of an `if` is evaluated once, before the branches: same treatment)
             pre = []
             k = 0
 
@@ -632,6 +684,8 @@ def inline_new_helpers(prog):
 
             if is_if:
                 st.test = H().visit(st.test)
+            elif is_for:
+                st.iter = H().visit(st.iter)
             else:
                 st.value = H().visit(st.value)
             for x in pre:
@@ -795,6 +849,22 @@ def inline_new_helpers(prog):
                     continue
                 body, ret = ex
                 body = rewrite(body, caller, depth + 1)
+                if kind == "assign" and len(st.targets) == 1:
+                    # s = helper(s, ...) with the helper re-binding its parameter: the parameter IS the caller's variable (it is
+                    # overwritten by the result anyway), so it keeps the caller's name instead of a renamed copy
+                    tn = {n.id for n in ast.walk(st.targets[0]) if isinstance(n, ast.Name)}
+                    for pa in [b_ for b_ in body if isinstance(b_, ast.Assign) and len(b_.targets) == 1 and isinstance(b_.targets[0], ast.Name) and b_.targets[0].id.endswith(SUFFIX) and isinstance(b_.value, ast.Name)]:
+                        hn, an = pa.targets[0].id, pa.value.id
+                        if an not in tn or hn[: -len(SUFFIX)] != an:
+                            continue
+                        others_ = [n for b_ in body if b_ is not pa for n in ast.walk(b_) if isinstance(n, ast.Name) and n.id == an] + ([n for n in ast.walk(ret) if isinstance(n, ast.Name) and n.id == an] if ret is not None else [])
+                        if others_:
+                            continue
+                        body = [b_ for b_ in body if b_ is not pa]
+                        for b_ in body + ([ret] if ret is not None else []):
+                            for n in ast.walk(b_):
+                                if isinstance(n, ast.Name) and n.id == hn:
+                                    n.id = an
                 if kind == "expr":
                     out += body
                 elif kind == "assign":
